@@ -177,7 +177,7 @@ def _edits_for(fn_node, src_lines):
                 up = src_lines[node.lineno - 1][node.upper.col_offset:node.upper.end_col_offset]
                 yield (node.lineno, node.col_offset, node.end_col_offset, up + ":", f"slice :{up} -> {up}:")
     # ---- third family: statement deletion (single-line assignments, augmented assignments, expression statements)
-    if os.environ.get("GTV_MUT_SDL"):
+    if os.environ.get("GTV_MUT_SDL") or os.environ.get("GTV_MUT_ALL"):
         for node in ast.walk(fn_node):
             if isinstance(node, (ast.Assign, ast.AugAssign, ast.Expr)) and node.lineno == node.end_lineno:
                 if isinstance(node, ast.Expr) and isinstance(node.value, ast.Constant):
@@ -348,6 +348,21 @@ if __name__ == "__main__":
                 for m in json.load(open(p1)):
                     prev.add((m["file"], m["line"], m["col"], m["end_col"], m["new"]))
         gen(int(sys.argv[2]) if len(sys.argv) > 2 else 6, seed=4, exclude=prev, out="mutants4.json")
+    elif cmd == "gen5":
+        # final round: all operator families mixed (statement deletion included), new seed, earlier mutants excluded
+        os.environ["GTV_MUT_ALL"] = "1"
+        prev = set()
+        for nm in ("mutants.json", "mutants2.json", "mutants4.json"):
+            p1 = os.path.join(SCR, nm)
+            if os.path.exists(p1):
+                for m in json.load(open(p1)):
+                    prev.add((m["file"], m["line"], m["col"], m["end_col"], m["new"]))
+        gen(int(sys.argv[2]) if len(sys.argv) > 2 else 3, seed=5, exclude=prev, out="mutants5.json")
+    elif cmd == "run5":
+        run(parallel=int(sys.argv[2]) if len(sys.argv) > 2 else 4, max_obs=int(sys.argv[3]) if len(sys.argv) > 3 else 24,
+            name="mutants5.json", results="results5.jsonl")
+    elif cmd == "report5":
+        report("mutants5.json", "results5.jsonl")
     elif cmd == "run4":
         run(parallel=int(sys.argv[2]) if len(sys.argv) > 2 else 4, max_obs=int(sys.argv[3]) if len(sys.argv) > 3 else 24,
             name="mutants4.json", results="results4.jsonl")
